@@ -66,9 +66,8 @@ Qed.
 
 Lemma mem_false x l : mem x l = false <-> ~ In x l.
 Proof.
-  rewrite <- mem_In. destruct (mem x l); split; intro H; try reflexivity; try discriminate.
-  - exfalso; apply H; reflexivity.
-  - intro; discriminate.
+  rewrite <- mem_In. destruct (mem x l); split; intro H; try reflexivity; try discriminate;
+    try (exfalso; apply H; reflexivity); try (intro; discriminate).
 Qed.
 
 (** The functions the property is stated in terms of.  Everything is proved for EVERY oracle;
@@ -189,42 +188,12 @@ Section Lang.
 
   Definition opt_list (a : option str) : list str := match a with Some x => [x] | None => [] end.
 
-  (** every name a pattern binds (including :as and & names), in binding order *)
-  Fixpoint binders (p : pat) : list str :=
-    match p with
-    | PSym x => [x]
-    | PVec ps rest as_ => opt_list as_ ++ binders_seq ps ++ opt_list rest
-    | PMap kg strs sg es ors as_ =>
-        opt_list as_ ++ map snd (norm_groups kg) ++ strs ++ map snd (norm_groups sg)
-        ++ binders_named es ++ binders_others es
-    end
-  with binders_seq (ps : pats) : list str :=
-    match ps with PNil => [] | PCons p t => binders p ++ binders_seq t end
-  with binders_named (es : pentries) : list str :=
+  Fixpoint binders_named (es : pentries) : list str :=
     match es with
     | MNil => []
     | MCons p _ t => (match p with PSym x => [x] | _ => [] end) ++ binders_named t
-    end
-  with binders_others (es : pentries) : list str :=
-    match es with
-    | MNil => []
-    | MCons p _ t => (if is_psym p then [] else binders p) ++ binders_others t
     end.
 
-  Definition forall_snd {A} (f : expr -> bool) (l : list (A * expr)) : bool :=
-    forallb (fun x => f (snd x)) l.
-
-  (** every expression inside the pattern (:or defaults, map keys) was written by the user *)
-  Fixpoint user_pat (p : pat) : bool :=
-    match p with
-    | PSym _ => true
-    | PVec ps _ _ => user_pats ps
-    | PMap _ _ _ es ors _ => forall_snd user_expr ors && user_entries es
-    end
-  with user_pats (ps : pats) : bool :=
-    match ps with PNil => true | PCons p t => user_pat p && user_pats t end
-  with user_entries (es : pentries) : bool :=
-    match es with MNil => true | MCons p k t => user_pat p && user_expr k && user_entries t end.
 End Lang.
 
 Arguments EConst {O} v.
@@ -250,12 +219,41 @@ Arguments lookup {O} x en.
 Arguments eval {O} en e.
 Arguments eval_let {O} bs en.
 Arguments user_expr {O} e.
-Arguments user_pat {O} p.
-Arguments user_pats {O} ps.
-Arguments user_entries {O} es.
-Arguments binders {O} p.
-Arguments binders_seq {O} ps.
 Arguments binders_named {O} es.
-Arguments binders_others {O} es.
 Arguments plen {O} ps.
 Arguments is_psym {O} p.
+
+(** The mutual fixpoints are stated outside the section (with the oracle as an explicit
+    uniform parameter): Coq's [simpl] does not refold mutual fixpoints discharged from a
+    section. *)
+(** every name a pattern binds (including :as and & names), in binding order *)
+Fixpoint binders {O : oracle} (p : pat O) : list str :=
+  match p with
+  | PSym x => [x]
+  | PVec ps rest as_ => opt_list as_ ++ binders_seq ps ++ opt_list rest
+  | PMap kg strs sg es ors as_ =>
+      opt_list as_ ++ map snd (norm_groups kg) ++ strs ++ map snd (norm_groups sg)
+      ++ binders_named es ++ binders_others es
+  end
+with binders_seq {O : oracle} (ps : pats O) : list str :=
+  match ps with PNil => [] | PCons p t => binders p ++ binders_seq t end
+with binders_others {O : oracle} (es : pentries O) : list str :=
+  match es with
+  | MNil => []
+  | MCons p _ t => (if is_psym p then [] else binders p) ++ binders_others t
+  end.
+
+Definition forall_snd {A B} (f : B -> bool) (l : list (A * B)) : bool :=
+  forallb (fun x => f (snd x)) l.
+
+(** every expression inside the pattern (:or defaults, map keys) was written by the user *)
+Fixpoint user_pat {O : oracle} (p : pat O) : bool :=
+  match p with
+  | PSym _ => true
+  | PVec ps _ _ => user_pats ps
+  | PMap _ _ _ es ors _ => forall_snd user_expr ors && user_entries es
+  end
+with user_pats {O : oracle} (ps : pats O) : bool :=
+  match ps with PNil => true | PCons p t => user_pat p && user_pats t end
+with user_entries {O : oracle} (es : pentries O) : bool :=
+  match es with MNil => true | MCons p k t => user_pat p && user_expr k && user_entries t end.
